@@ -105,7 +105,9 @@ def hash_key(key):
 
 
 def vclass(v):
-    return (v['monitor'], v['code'], v['site'])
+    """violation class = full signature (monitor, code, site, cause): minimisation preserves it, and a
+    listed known finding can never mask a violation with another cause at the same site"""
+    return (v['monitor'], v['code'], v['site'], v['cause'])
 
 
 def vsig(v):
@@ -465,7 +467,7 @@ def confirm_fresh(path, v):
     for line in p.stdout.splitlines():
         if line.startswith('REPLAY reproduced sig='):
             got = line.split('sig=', 1)[1].split()[0]
-            if got.rsplit('/', 1)[0] == want:
+            if got == want:
                 return True
     sys.stdout.write(p.stdout[-800:] + p.stderr[-1500:])
     return False
@@ -567,7 +569,17 @@ def run_check(prop, tier, seed=None, runs=None, wall=None, workers=None, chunk=N
         byclass.setdefault(vclass(v), (record, v, pre))
     lines, unlisted, known_hits = [], 0, []
     reported = {}
-    for cls, (record, v, pre) in list(byclass.items())[:MAX_MINIMISED]:
+    # classes that are not listed as known findings get the minimisation slots first
+    ordered = sorted(byclass.items(), key=lambda kv: match_known(prop, '/'.join(kv[0])) is not None)
+    n_known_slots = 0
+    for cls, (record, v, pre) in ordered:
+        is_known = match_known(prop, '/'.join(cls)) is not None
+        if is_known:
+            n_known_slots += 1
+            if n_known_slots > MAX_MINIMISED:
+                continue
+        elif unlisted >= MAX_MINIMISED:
+            continue
         orig_len = len(record.get('ops', []))
         res = minimise(mod, record, v, pre)
         if res is None:
@@ -596,7 +608,7 @@ def run_check(prop, tier, seed=None, runs=None, wall=None, workers=None, chunk=N
             unlisted += 1
             lines.append(f'VIOLATION property={prop} replay={path}')
             print(f'  class={cls} sig={sig} detail={v2["detail"][:400]}', flush=True)
-    extra_classes = max(0, len(byclass) - MAX_MINIMISED)
+    extra_classes = max(0, len(byclass) - len(reported))
 
     wall_s = time.time() - t0
     evidence = {
@@ -616,7 +628,7 @@ def run_check(prop, tier, seed=None, runs=None, wall=None, workers=None, chunk=N
             'simulated_time_ticks': agg['ticks'],
             'faults_fired': {k[6:]: n for k, n in sorted(agg['stats'].items()) if k.startswith('fault:')},
             'probes_hit': {k[6:]: n for k, n in sorted(agg['stats'].items()) if k.startswith('probe:')},
-            'counters': {k: n for k, n in sorted(agg['stats'].items()) if ':' not in k},
+            'counters': {k: n for k, n in sorted(agg['stats'].items()) if not k.startswith(('fault:', 'probe:'))},
             'distinct_states': len(agg['states']),
             'distinct_schedules': len(agg['scheds']),
             'undecided': dict(sorted(agg['undecided'].items())),
